@@ -406,8 +406,9 @@ impl MarlinPST13 {
 //@rw 1 /r \+= \((.*)\);/ => r.add_assign((\1));
 //@rw 1 /(?s)let mut w = witnesses\s*\.iter\(\)\s*\.map\(\|w\| \{(.*?)\n\s*\}\)\s*\.collect::<Vec<_>>\(\);/ => let mut w: Vec<G1> = witnesses.iter().map(|w: &MvPoly| -> (o: G1) ensures o@ == wcomm(ck, w) {\1
             }).collect();
-//@rw 1 /(?s)let powers_of_g = ark_std::cfg_iter!\(w\.terms\(\)\)\s*\.map\(\|\(_, term\)\| \*ck\.powers_of_g\.get\(term\)\.unwrap\(\)\)\s*\.collect::<Vec<_>>\(\);/ => let powers_of_g: Vec<G1Affine> = w.terms().iter().map(|ct: &(Fr, Term)| -> (g: G1Affine) ensures g@ == pst_key(&ck.powers_of_g, ct.1.v@) { let term = &ct.1; table_get(&ck.powers_of_g, term) }).collect();
+//@rw 1 /(?s)let powers_of_g = ark_std::cfg_iter!\(w\.terms\(\)\)\s*\.map\(\|\(_, term\)\| (.*?)\)\s*\.collect::<Vec<_>>\(\);/ => let powers_of_g: Vec<G1Affine> = w.terms().iter().map(|ct: &(Fr, Term)| -> (g: G1Affine) ensures g@ == pst_key(&ck.powers_of_g, ct.1.v@) { let term = &ct.1; \1 }).collect();
                 proof { assert(g1views(powers_of_g@) =~= keys_of(&ck.powers_of_g, w.terms@)); }
+//@rw * /\*ck\.powers_of_g\.get\(([^()]*)\)\.unwrap\(\)/ => table_get(&ck.powers_of_g, \1)
 //@rw 1 /Self::convert_to_bigints\(&w\)/ => Self::convert_to_bigints(w)
 //@before /<E::G1 as VariableBaseMSM>::msm_bigint\(&powers_of_g, &witness_ints\)/
                 proof { assert(bviews(witness_ints@) == coeffs_of(w.terms@)); assert(powers_of_g@.len() == w.terms@.len() && witness_ints@.len() == w.terms@.len()); }
